@@ -587,9 +587,9 @@ fn main() {
         return;
     }
     let threads = a.pick(2, 8) as u64;
-    let n_offers = a.pick(1200u64, 30_000u64);
-    let sample_every = a.pick(12u64, 40u64);
-    let rounds = a.pick(2usize, 20usize);
+    let n_offers = a.pick(5000u64, 60_000u64);
+    let sample_every = a.pick(10u64, 25u64);
+    let rounds = a.pick(4usize, 40usize);
     std::thread::scope(|s| {
         for shard in 0..threads {
             let rep = &rep;
